@@ -32,6 +32,9 @@ BehKinds == {K1, K2, K3, K5}
 BehInit == {<<K1>>, <<K4>>, <<K1, K2>>, <<K2, K5>>, <<K3, K6>>, <<K1, K2, K3>>}
 BehIns == {K4}
 BehExt == {<<K3, K4>>, <<K6, K6>>}
+Beh2Kinds == {K2, K5}
+Beh2Ins == {K3, K4}
+Beh2Init == {<<K4>>, <<K1, K2>>, <<K3, K6>>, <<K1, K2, K3>>}
 
 
 
@@ -47,5 +50,9 @@ SqKinds == {S1, S2, S3, S4, S5, S6}
 SqInit == {<<S1, S2>>, <<S2, S3>>, <<S4, S5>>, <<S1, S2, S3>>, <<S2, S5, S6>>}
 SqIns == {S3}
 SqExt == {<<S2, S3>>}
+NoGiven == {}
+\* offsets passed to the constructor: exactly representable values over descriptor 1, and over 1 and 2
+BehGiven == {[keys |-> <<1>>, off |-> <<RFrac(MinusOne, 2)>>, tref |-> R(400)],
+             [keys |-> <<1, 2>>, off |-> <<R(3), RFrac(MinusOne, 4)>>, tref |-> R(250)]}
 View == <<refs, keys, off, tref, fitted, cache, Len(h), h[Len(h)].act>>
 =============================================================================
